@@ -215,6 +215,17 @@ impl ProgGen {
             items.push(Item::Const { dots: 0, name: c.clone(), e, noemit: false });
         }
 
+        // v3: constants wider than a machine word whose lower words have leading zero digits (they are only declared
+        // and listed, never used as operands)
+        if crate::engine::gen_version() >= 3 && t.chance(1, 6) {
+            let texts = ["0x1_0000_0000_0000_0001", "0x0123456789abcdef_0011223344556677", "0x1_0000_0000_0000_0000", "0xff_0000_0000_0fff_ffff", "18446744073709551617"];
+            let k = t.below(texts.len());
+            let text = texts[k];
+            let clean: String = text.chars().filter(|c| *c != '_').collect();
+            let (v, size) = if let Some(h) = clean.strip_prefix("0x") { (BigInt::parse_bytes(h.as_bytes(), 16).unwrap(), Some(h.len() * 4)) } else { (BigInt::parse_bytes(clean.as_bytes(), 10).unwrap(), None) };
+            items.push(Item::Const { dots: 0, name: format!("kw{}", k), e: E::Lit { text: text.to_string(), v, size }, noemit: false });
+        }
+
         // v2: a constant whose value is a conditional with a decided condition; the arm that is taken may read a
         // label declared later (so the constant is NOT known before addresses are), the other arm is a literal
         if crate::engine::gen_version() >= 2 && !names.globals.is_empty() && t.chance(1, 5) {
